@@ -600,6 +600,8 @@ class TorConfig:
             HiddenServiceDirGroupReadable=False
         )
         self._defaults = dict()
+        # how often each option has been changed locally (see save())
+        self._generation = dict()
 
         self.post_bootstrap = defer.Deferred()
         if self.protocol:
@@ -773,6 +775,7 @@ class TorConfig:
                     value, functools.partial(self.mark_unsaved, name))
 
             name = self._find_real_name(name)
+            self._generation[name] = self._generation.get(name, 0) + 1
             self.unsaved[name] = value
 
         else:
@@ -914,6 +917,8 @@ class TorConfig:
 
     def mark_unsaved(self, name):
         name = self._find_real_name(name)
+        generation = self.__dict__['_generation']
+        generation[name] = generation.get(name, 0) + 1
         if name in self.config and name not in self.unsaved:
             self.unsaved[name] = self.config[self._find_real_name(name)]
 
@@ -987,10 +992,12 @@ class TorConfig:
         # FIXME might want to re-think this, but currently there's no
         # way to put things into a config and get them out again
         # nicely...unless you just don't assign a protocol
-        # remember what we are sending (lists by content too, since
-        # they can be changed in place while the SETCONF is in flight)
+        # remember what we are sending, and which change of each
+        # option it reflects (options can be assigned, or their lists
+        # changed in place, while the SETCONF is in flight)
+        generation = self.__dict__['_generation']
         sent = [
-            (key, value, list(value) if isinstance(value, list) else None)
+            (key, value, generation.get(key, 0))
             for (key, value) in self.unsaved.items()
         ]
         if self.protocol:
@@ -1010,9 +1017,10 @@ class TorConfig:
         # anything changed while the SETCONF was outstanding is still
         # unsaved
         unsaved = self.__dict__['unsaved']
-        for (key, value, snapshot) in sent:
+        generation = self.__dict__['_generation']
+        for (key, value, sent_generation) in sent:
             if key in unsaved and unsaved[key] is value and \
-               (snapshot is None or list(value) == snapshot):
+               generation.get(key, 0) == sent_generation:
                 del unsaved[key]
         return self
 
